@@ -136,7 +136,24 @@ let verdict_of (param : string) (arg : string) (impl : string) : string =
            if not (has 0) then fails := "C14:literal-not-in-image" :: !fails
          end
        end else if Model.N.eqb v maxu64 then ()
-       else if accepted then fails := "C14:unencodable-literal-accepted" :: !fails
+       else if accepted then fails := "C14:unencodable-literal-accepted" :: !fails;
+       (* in override position: the value became the initial value of exactly the named variable *)
+       (match String.split_on_char ' ' arg, String.split_on_char ' ' impl with
+        | [_; ups; names], ["OK"; _; _; look] when ups <> "-" && not (String.contains ups ',') && names <> "-" ->
+          (match String.index_opt ups '=' with
+           | Some i ->
+             let tname = String.sub ups 0 i in
+             let ns = String.split_on_char ',' names and rs = String.split_on_char ',' look in
+             if List.length ns = List.length rs then begin
+               let want = ":n" ^ n_to_hex v in
+               let ends_with suf s = String.length s >= String.length suf && String.sub s (String.length s - String.length suf) (String.length suf) = suf in
+               (match List.assoc_opt tname (List.combine ns rs) with
+                | Some r when r <> "-" && (r.[0] = 'C' || r.[0] = 'R') && not (ends_with want r) ->
+                  fails := "C14:override-did-not-become-the-initial-value-of-the-named-variable" :: !fails
+                | _ -> ())
+             end
+           | None -> ())
+        | _ -> ())
      | None -> ());
     (* C20: every layout of one program gives the same image and scope *)
     (match List.assoc_opt "expect" params with
